@@ -32,6 +32,19 @@ R = Run("C02", "(1) every resolvable name (symbol x alias x prefix, 3.9k) vs pre
         "60000 (thorough) random; ops: 145^2 atom pairs for mul/div (thorough; 45^2 quick) + random "
         "prefixed/compound operands; rtol 1e-14 names, 1e-13 conversions, 1e-12 compounds")
 
+def _driver_error(tp, val, tb):
+    """an unexpected error of the driver becomes a note; the JSON line is still printed"""
+    import traceback
+    R.notes.append("driver error: %r %s" % (val, "".join(traceback.format_tb(tb))[-400:]))
+    try:
+        R.finish()
+    except SystemExit:
+        sys.stdout.flush()
+        os._exit(0)
+
+
+sys.excepthook = _driver_error
+
 _seen_fail = {}
 
 
